@@ -64,6 +64,12 @@ func New(recs []Rec) *Querier {
 	return &Querier{Recs: cp, TimeFilter: true, FailAfter: -1}
 }
 
+// NewUnsorted returns a mock querier that delivers recs in the given order (a storage whose records are not
+// in time order, such as a container log with out-of-order timestamps).
+func NewUnsorted(recs []Rec) *Querier {
+	return &Querier{Recs: append([]Rec(nil), recs...), TimeFilter: true, FailAfter: -1}
+}
+
 // Capabilities implements logqlengine.Querier.
 func (q *Querier) Capabilities() logqlengine.QuerierCapabilities { return q.Caps }
 
